@@ -266,8 +266,14 @@ def inlined_sites(facts, body, pred, depth=2, _seen=(), closures=True):
     out = []
     du = du_of(body)
     if closures and body.kind != "closure":
+        cg_ = cg_of(facts)
         for cb in facts.closures_of(body.path):
+            inv = [cs for cs in cg_.callers_of(cb.path) if cb in cs.closures and cs.body is body]
             for s0 in inlined_sites(facts, cb, pred, depth, _seen, closures=False):
+                if inv:
+                    # anchor of the site in the enclosing function: the call the closure is handed to
+                    s0.outer_body, s0.outer_block = body, inv[0].block
+                    s0.lits = list(lits_of(body, inv[0].block, facts)) + s0.lits
                 out.append(s0)
     for bi, t in body.calls():
         if t.callee is None:
@@ -331,3 +337,18 @@ def members_of(facts, body, depth=2):
                 nxt.append(hb)
         frontier = nxt
     return out
+
+
+def closure_call_mapping(facts, cb):
+    """closure `cb` is a local closure called by name in its parent (`let rec = |a, b| ..; .. rec(x, y)`): the mapping
+    {closure parameter index: argument term in the parent's frame} of (the first of) its direct invocations, else None"""
+    from .defuse import du_of as _du
+    for cs in cg_of(facts).callers_of(cb.path):
+        if cs.callee is None or cs.callee.name not in ("call", "call_mut", "call_once") or len(cs.term.args) < 2:
+            continue
+        tup = _du(cs.body).operand_term(cs.term.args[1], 30)
+        while tup[0] == "var":
+            tup = tup[3]
+        if tup[0] == "tuple":
+            return {2 + i: e for i, e in enumerate(tup[1])}
+    return None
